@@ -58,7 +58,7 @@ def build(case, pres):
     return inst, projs, prof, k
 
 
-def replay_history(case, pres, inst, projs, prof):
+def replay_history(case, pres, inst, projs, prof, inits):
     """what happened in this process BEFORE the election is evaluated (presentation kind 5): other elections on
     the same Instance object / the same profile object with another Instance / the same Project objects with
     other costs, run through the same calls (hence through the same module-level tie-breaking singletons).
@@ -71,8 +71,8 @@ def replay_history(case, pres, inst, projs, prof):
     if h["mode"] == "inst":
         for eb in h["earlier"]:
             prof_e = make_prof(case, inst, projs, eb, None)
-            for call in case["calls"]:
-                run_call(call, inst, projs, prof_e, Fraction(1), sink)
+            for call, init in zip(case["calls"], inits):
+                run_call(call, inst, projs, prof_e, Fraction(1), sink, init)   # the caller's init object is reused
                 sink.clear()
     elif h["mode"] == "prof":
         inst2 = Instance()
@@ -80,6 +80,8 @@ def replay_history(case, pres, inst, projs, prof):
             inst2.add(p)
         inst2.budget_limit = pb.num(h["budget2"])
         for call in case["calls"]:
+            if "init" in call:
+                continue                    # the initial allocation need not be feasible for the other budget
             run_call(call, inst2, projs, prof, Fraction(1), sink)
             sink.clear()
     elif h["mode"] == "cost":
@@ -89,6 +91,8 @@ def replay_history(case, pres, inst, projs, prof):
         try:
             prof_e = make_prof(case, inst, projs, h["earlier"][0], None)
             for call in case["calls"]:
+                if "init" in call:
+                    continue
                 run_call(call, inst, projs, prof_e, Fraction(1), sink)
                 sink.clear()
         finally:
@@ -98,23 +102,46 @@ def replay_history(case, pres, inst, projs, prof):
         raise ValueError(h["mode"])
 
 
-def run_call(call, inst, projs, prof, k, sat_cache):
+INIT_FORMS = ["list", "tuple", "ba"]
+
+
+def make_init(call, projs, form):
+    """the initial budget allocation of a call in one of the forms a caller may pass it; the SAME object is handed
+    to every repetition of the call (and to the earlier elections of a process-history presentation)"""
+    if "init" not in call:
+        return None
+    ps = [projs[i] for i in call["init"]]
+    if form == "list":
+        return ps
+    if form == "tuple":
+        return tuple(ps)
+    from pabutools.rules import BudgetAllocation
+
+    return BudgetAllocation(ps)
+
+
+def run_call(call, inst, projs, prof, k, sat_cache, init=None):
     from pabutools import rules as R
     from pabutools.rules.maxwelfare import MaxAddUtilWelfareAlgo
     from vharness import pb, elections as E
 
     rule = call["rule"]
     tb = E.tie_breaking(call.get("tb", "lexico"))
+    kw = {}
+    if "init" in call:
+        if init is None:
+            raise ValueError("call with an initial allocation evaluated without one")
+        kw["initial_budget_allocation"] = init
     if rule == "phragmen":
-        out = R.sequential_phragmen(inst, prof, tie_breaking=tb)
+        out = R.sequential_phragmen(inst, prof, tie_breaking=tb, **kw)
         return {"set": sorted(pb.ranks(out)), "val": "0/1"}
     sat = E.sat_class(call["sat"])
     if rule == "greedy":
         out = R.greedy_utilitarian_welfare(inst, prof, sat_class=sat, tie_breaking=tb,
-                                           is_sat_additive=call.get("additive"))
+                                           is_sat_additive=call.get("additive"), **kw)
         return {"set": sorted(pb.ranks(out)), "val": "0/1"}
     if rule == "mes":
-        out = R.method_of_equal_shares(inst, prof, sat_class=sat, tie_breaking=tb)
+        out = R.method_of_equal_shares(inst, prof, sat_class=sat, tie_breaking=tb, **kw)
         return {"set": sorted(pb.ranks(out)), "val": "0/1"}
     if rule == "mes_iter":
         # the increment is money: it is presented in the same unit as costs and budget
@@ -123,7 +150,7 @@ def run_call(call, inst, projs, prof, k, sat_cache):
         return {"set": sorted(pb.ranks(out)), "val": "0/1"}
     if rule == "maxw":
         out = R.max_additive_utilitarian_welfare(inst, prof, sat_class=sat,
-                                                 inner_algo=MaxAddUtilWelfareAlgo.PRIMAL_DUAL)
+                                                 inner_algo=MaxAddUtilWelfareAlgo.PRIMAL_DUAL, **kw)
         sp = sat_cache.get(call["sat"])
         if sp is None:
             sp = prof.as_sat_profile(sat_class=sat)
@@ -147,12 +174,18 @@ def run_case(case):
         inst, projs, prof, k = build(case, pres)
         if j == 0:
             enum0 = [pb.rank(p) for p in inst]
+        # initial allocations: a BudgetAllocation object wherever objects are reused (repetition, process history),
+        # otherwise the forms in turn; every outcome is snapshotted (sorted ranks) right after its call
+        inits = []
+        for ci, call in enumerate(case["calls"]):
+            form = "ba" if (pres.get("twice") or pres.get("hist")) else INIT_FORMS[(j + ci) % len(INIT_FORMS)]
+            inits.append(make_init(call, projs, form))
         if pres.get("hist"):
-            replay_history(case, pres, inst, projs, prof)
+            replay_history(case, pres, inst, projs, prof, inits)
         sat_cache = {}
         for ci, call in enumerate(case["calls"]):
-            a = run_call(call, inst, projs, prof, k, sat_cache)
-            b = run_call(call, inst, projs, prof, k, sat_cache) if pres.get("twice") else None
+            a = run_call(call, inst, projs, prof, k, sat_cache, inits[ci])
+            b = run_call(call, inst, projs, prof, k, sat_cache, inits[ci]) if pres.get("twice") else None
             runs[ci][j] = [a, b]
     return {"runs": runs, "enum0": enum0}
 
